@@ -7,6 +7,10 @@ CONSTANTS
   FullAlphabet = FALSE
   Walk = FALSE
   MaxSteps = 0
+  Tight = FALSE
+  Warm = FALSE
+  Per = 8
+  Rebuild = "limit-burst"
 CONSTRAINT HighWater
 INVARIANTS FastIsSlow
 POSTCONDITION Accepted
